@@ -4,7 +4,7 @@
    Formulas with a bounded operator need every input signal to start at time 0 (the visitors of the bounded
    operators assume it: known finding KF-C04-late-start); untimed formulas do not. *)
 From Coq Require Import List Bool Arith ZArith Lia.
-From RV Require Import Val Syntax Rho ListFacts OfflineCorrect Online Dense DenseSem DenseFacts DenseMerge DenseMergeCorrect DenseMergeG DenseMergeGCorrect DenseEval DenseEvalCorrect DenseSinceCorrect DenseWin DenseWinCorrect DenseWinFut DenseTimedLaws DenseTimedCorrect DenseVisitor.
+From RV Require Import Val Syntax Rho ListFacts OfflineCorrect Online Dense DenseSem DenseFacts DenseMerge DenseMergeCorrect DenseMergeG DenseMergeGCorrect DenseEval DenseEvalCorrect DenseSinceCorrect DenseWin DenseWinCorrect DenseWinFut DenseTimedLaws DenseTimedCorrect DenseIA DenseVisitor.
 From RV Require Export DenseConst.
 Import ListNotations.
 Local Open Scope Z_scope.
@@ -12,8 +12,10 @@ Local Open Scope Z_scope.
 Section EvalMain.
 Context {VS : Val} (AR : Arith VS).
 
-Let pk : formula -> formula -> pkind := fun _ _ => PStd.
+Variable pk : formula -> formula -> pkind.
 Hypothesis SubNeg : forall l r, neg (a2 AR Sub l r) = a2 AR Sub r l.
+(* the IA-STL predicate kinds need the sign laws of the difference; the STL visitor (PStd everywhere) does not *)
+Hypothesis HDL : (forall f g, pk f g = PStd) \/ DiffLaws AR.
 Variable W : list dsig.
 Variable tend : Z.
 Hypothesis Htend : 0 <= tend.
@@ -63,13 +65,13 @@ Proof.
   apply H0. apply nth_In. lia.
 Qed.
 
-Theorem deval_correct p : dfrag p = true -> wf_bounds p = true -> (untimed p = true \/ starts0) -> (nvars p <= length W)%nat ->
-  exists s, deval AR p W = Some s /\ good s (dstart W p) (RZ p).
+Theorem deval_pk_correct p : dfrag p = true -> wf_bounds p = true -> (untimed p = true \/ starts0) -> (nvars p <= length W)%nat ->
+  exists s, deval_pk AR pk p W = Some s /\ good s (dstart W p) (RZ p).
 Proof.
   induction p; intros Hu Hb Hor Hn; cbn [dfrag] in Hu; try discriminate; cbn [nvars] in Hn; cbn [wf_bounds] in Hb;
   repeat match goal with H : _ && _ = true |- _ => apply andb_prop in H; destruct H end;
   repeat match goal with H : (_ <=? _)%nat = true |- _ => apply Nat.leb_le in H end;
-  cbn [deval dstart].
+  cbn [deval_pk dstart].
   - (* Var *) destruct (in_W x ltac:(lia)) as (S & N & U). exists (nth x W []). split; [reflexivity|]. apply good_self; assumption.
   - (* Const *) exists [(0, c)]. split; [reflexivity|]. split; [cbn; auto|]. split; [discriminate|]. split; [reflexivity|].
     intros t. cbn [den_opt rhoZ]. destruct (Z.leb_spec 0 t); destruct (Z.ltb_spec t 0); try lia; reflexivity.
@@ -82,8 +84,11 @@ Proof.
     assert (O2 : untimed p2 = true \/ starts0) by (destruct Hor as [Hor|Hor]; [cbn [untimed] in Hor; apply andb_prop in Hor; left; tauto|right; exact Hor]).
     destruct (IHp1 ltac:(assumption) ltac:(assumption) O1 ltac:(lia)) as (s1 & E1 & G1), (IHp2 ltac:(assumption) ltac:(assumption) O2 ltac:(lia)) as (s2 & E2 & G2). rewrite E1, E2. cbn [obind].
     destruct (good_isect (a2 AR Sub) _ _ _ _ _ _ G1 G2) as (out & E & G). rewrite E. cbn [option_map]. eexists. split; [reflexivity|].
-    apply good_dedup. eapply good_ext; [apply (good_dmap (pred_of_diff AR c) out _ _ G)|].
-    intros t _. cbn [rhoZ pred_val pk]. apply pred_of_diff_std.
+    destruct HDL as [Hstd|DL].
+    + rewrite Hstd, ia_pred_std. apply good_dedup. eapply good_ext; [apply (good_dmap (pred_of_diff AR c) out _ _ G)|].
+      intros t _. cbn [rhoZ]. rewrite Hstd. cbn [pred_val]. apply pred_of_diff_std.
+    + rewrite (ia_pred_dmap AR DL). eapply good_ext; [apply good_dmap; apply good_dedup; apply (good_dmap (pred_of_diff AR c) out _ _ G)|].
+      intros t _. cbn [rhoZ]. apply (rob_value_sem AR DL SubNeg).
   - (* Not *) destruct (IHp Hu Hb Hor Hn) as (s & E & G). rewrite E. eexists. split; [reflexivity|]. apply (good_dmap neg s _ _ G).
   - assert (O1 : untimed p1 = true \/ starts0) by (destruct Hor as [Hor|Hor]; [cbn [untimed] in Hor; apply andb_prop in Hor; left; tauto|right; exact Hor]).
     assert (O2 : untimed p2 = true \/ starts0) by (destruct Hor as [Hor|Hor]; [cbn [untimed] in Hor; apply andb_prop in Hor; left; tauto|right; exact Hor]).
@@ -165,3 +170,10 @@ Proof.
 Qed.
 
 End EvalMain.
+
+(* the STL visitor: standard predicates everywhere, no law about the difference beyond SubNeg *)
+Theorem deval_correct {VS : Val} (AR : Arith VS) (SubNeg : forall l r, neg (a2 AR Sub l r) = a2 AR Sub r l)
+  (W : list dsig) (tend : Z) (Htend : 0 <= tend) (HW : forall s, In s W -> dsorted s /\ s <> [] /\ ub tend s) p :
+  dfrag p = true -> wf_bounds p = true -> (untimed p = true \/ starts0 W) -> (nvars p <= length W)%nat ->
+  exists s, deval AR p W = Some s /\ good s (dstart W p) (rhoZ AR (fun _ _ => PStd) W tend p).
+Proof. apply (deval_pk_correct AR (fun _ _ => PStd) SubNeg (or_introl (fun _ _ => eq_refl)) W tend Htend HW p). Qed.
